@@ -7,20 +7,19 @@ from common import cq, chunks
 from props._fa_common import TRUSTED, ASSUMPTIONS, TECHNIQUE
 
 PROP = "C05"
-LEVEL = "other"
+LEVEL = "proof"
 THEOREMS = {"Properties.C05": ["C05_regex_automaton", "C05_matcher", "C05_equiv_certificate", "C05_operator_spellings_from_source", "C05_precedence_instances",
-                             "C05_to_epsilon_nfa_model", "C05_to_cfg_model", "C05_parser_reads_minimal_text", "C05_to_cfg_rules_from_source", "C05_accepts_code_path"]}
-LEVEL_TEXT = ("Partial proof + correspondence: the denotation of regular expressions, the automaton construction re_fa (proved: Lang (re_fa r) = den r), the "
-              "derivative matcher (proved exact) and the exact equivalence check are machine-checked for all expressions. The documented concrete syntax is "
-              "given by a reference recursive-descent parser in Gallina (precedence star > concatenation > union, both operator spellings, epsilon/$, "
-              "escapes); pyformlang's parser is compared with it on generated texts (minimal and redundant parentheses, all spacings): the tree it builds, "
-              "accepts(), to_epsilon_nfa(), to_cfg(), the combinators and str() round trip are all decided against the reference by the exact equivalence "
-              "check; ill-formed text must raise MisformedRegexError and nothing else. Regex.to_epsilon_nfa (pyformlang's own Thompson-style construction "
-              "with its running state counter) and Regex.to_cfg (one variable per node) are mirrored in Gallina and proved to denote den r for every "
-              "expression; what pyformlang returns is compared structurally (states, transitions; variables, productions) with these models on every "
-              "generated expression. The reference parser is proved to read back every expression from its minimally parenthesised text, with "
-              "either spelling of concatenation (C05_parser_reads_minimal_text): it implements the documented precedences. pyformlang's own parser and "
-              "tokeniser are compared with it, not mirrored, which is why the level stays 'other'.")
+                             "C05_to_epsilon_nfa_model", "C05_to_cfg_model", "C05_parser_reads_minimal_text", "C05_to_cfg_rules_from_source", "C05_accepts_code_path", "C05_str_round_trip"]}
+LEVEL_TEXT = ("Proof + correspondence: the denotation of regular expressions, the derivative matcher (proved exact) and the exact equivalence check are "
+              "machine-checked for all expressions. The documented concrete syntax is given by a reference recursive-descent parser in Gallina which is "
+              "PROVED to read back every expression from its text with the fewest parentheses the documented precedences allow (star > concatenation > "
+              "union, both spellings of concatenation) and from the fully parenthesised text of str() (C05_parser_reads_minimal_text, C05_str_round_trip). "
+              "Every representation is mirrored and proved to denote den r for every expression: Regex.to_epsilon_nfa (pyformlang's counter-based "
+              "Thompson construction), Regex.accepts (that construction followed by the acceptance loop), Regex.to_cfg (one variable per node; its rule "
+              "templates are regenerated from the source on every build), str(). What pyformlang returns is compared STRUCTURALLY with these mirrors on "
+              "every generated expression (states and transitions; variables and productions; token sequence of str()). pyformlang's own text parser and "
+              "tokeniser are not mirrored: the tree they build is compared with the reference parser's on generated texts (minimal, redundant and doubled "
+              "parentheses, all spacings, both operator spellings, escapes), and ill-formed text must raise MisformedRegexError and nothing else.")
 LEVEL_NOTE = "Trusted: Coq kernel; the reference parser as the reading of the documented grammar; Python harness (renders token lists to text)."
 RULE = ("generated expressions (depth <= 4; symbols of 1-3 characters, escaped operators, epsilon and $; both spellings of union and concatenation; minimal, "
         "redundant and doubled parentheses; with and without blanks around operators) + ill-formed texts (unbalanced, dangling or doubled operators, "
@@ -203,6 +202,24 @@ def _coq_enfa_nat(spec, sym):
                                                   "; ".join(trans), "; ".join(st(x) for x in spec["starts"]), "; ".join(st(x) for x in spec["finals"]))
 
 
+def _str_tokens(text):
+    """tokens of the text printed by str(regex): operators, "$", and symbols (a backslash protects the first character of a symbol)"""
+    ops = "()|.*"
+    out, i = [], 0
+    while i < len(text):
+        ch = text[i]
+        if ch in ops:
+            out.append(ch)
+            i += 1
+            continue
+        j = i + 2 if ch == "\\" else i + 1
+        while j < len(text) and text[j] not in ops:
+            j += 1
+        out.append(text[i:j])
+        i = j
+    return out
+
+
 def _coq_toks(toks, sym):
     m = {"(": "TLp", ")": "TRp", "*": "TStar", "|": "TUnion", "+": "TUnion", ".": "TConcat", "epsilon": "TEps", "$": "TEps"}
     out = []
@@ -253,8 +270,10 @@ def check_cases(ctx, cases):
                 TH = "re_enfa_same %s %s" % (T, _coq_enfa_nat(o["enfa"], sym)) if _binary(o["tree"]) else "false"
             except ValueError:
                 TH = "false"
-            lines.append("Eval vm_compute in (match %s with Some r => Some (judge_re2 r %s, judge (renumber (re_fa r)) %s, map (re_matches r) %s, %s, %s, %s) | None => None end)." % (
-                ref, T, E, ws, ("judge_re2 r %s" % TS) if TS else "VFuel", CG, TH))
+            # the token sequence of str(regex) against the model pr_py applied to pyformlang's own tree
+            ST = "toks_same (pr_py %s) %s" % (T, _coq_toks(_str_tokens(o["str"]), sym))
+            lines.append("Eval vm_compute in (match %s with Some r => Some (judge_re2 r %s, judge (renumber (re_fa r)) %s, map (re_matches r) %s, %s, %s, %s, %s) | None => None end)." % (
+                ref, T, E, ws, ("judge_re2 r %s" % TS) if TS else "VFuel", CG, TH, ST))
             keep.append(i)
         srcs.append("From PFL Require Import Eval.FA.\n" + "\n".join(lines) + "\n")
         idxs.append(keep)
@@ -287,7 +306,7 @@ def check_cases(ctx, cases):
         if o.get("operand_after") != o.get("operand_fresh"):
             ctx.fail("combine-changes-operand", c, {"after": o.get("operand_after"), "fresh": o.get("operand_fresh")})
             continue
-        jt, je, bits, js, cg, thm = mv[1]
+        jt, je, bits, js, cg, thm, strm = mv[1]
         if jt != "VEq":
             ctx.fail("parse-tree-language", c, {"verdict": str(jt), "tree": o["tree"]})
         elif je != "VEq":
@@ -305,6 +324,8 @@ def check_cases(ctx, cases):
             ctx.fail("to_cfg-model", c, {"impl": o["cfg"], "tree": o["tree"]}, correspondence_only=True)
         elif thm is not True:
             ctx.fail("to_epsilon_nfa-model", c, {"impl": o["enfa"], "tree": o["tree"]}, correspondence_only=True)
+        elif strm is not True:
+            ctx.fail("str-model", c, {"str": o["str"], "tree": o["tree"]}, correspondence_only=True)
         else:
             ctx.dist["to_cfg and to_epsilon_nfa structurally identical to the proved models"] += 1
 
